@@ -1646,3 +1646,89 @@ Proof.
     + unfold bsem_not. rewrite N.eqb_refl. reflexivity.
   - unfold bsem_not. rewrite N.eqb_refl. reflexivity.
 Qed.
+
+(* ============================================================ the whole evaluation: Vm::eval *)
+Section Top.
+Variable ob : N -> M vcell.
+Variable bsem : N -> list rval -> option rval.
+Notation run_one := (Vm.run_one ob).
+Notation steps := (RunProofs.steps ob).
+
+Ltac fetch_op' Hc Hip H0 :=
+  unfold Vm.run_one; unfold bindM at 1;
+  rewrite (read_opcode_ok _ _ _ _ _ Hc Hip H0); cbv beta iota.
+
+(* CALL %acc of a lambda: push %ep and the return address, enter the callee *)
+Lemma step_call_lambda m lp i bc a lid : code_in m lp bc -> ip m = (lp, i) -> seg bc i [VOp OCallAcc] ->
+  acc m = VPtr a -> heap_get (hp m) a = Ok (VLambda lid) ->
+  run_one m = ROk false (with_ip (pushed (pushed (with_ip m (lp, i + 1)) (VEp (ep m))) (VIp lp (i + 1))) (a, 0)).
+Proof.
+  intros Hc Hip Hs Hacc Hg. apply seg_head in Hs as [H0 _].
+  fetch_op' Hc Hip H0.
+  assert (E : Vm.resolve_callee ob (with_ip m (lp, i + 1)) = ROk (CLambda a) (with_ip m (lp, i + 1))).
+  { unfold Vm.resolve_callee. unfold bindM at 1. unfold get_vm. unfold bindM at 1.
+    unfold hderef, lift. cbn [hp acc with_ip]. rewrite Hacc. cbn [heap_deref]. rewrite Hg.
+    rewrite ?Hacc. reflexivity. }
+  unfold bindM at 1. rewrite E. reflexivity.
+Qed.
+
+(* ENTER of a closure-less lambda without formals *)
+Lemma step_enter_top m a bc lid lam : code_in m a bc -> ip m = (a, 0) -> list_get bc 0 = Some (VOp OEnter) ->
+  acc m = VPtr a -> heap_get (hp m) a = Ok (VLambda lid) -> tget (lams (st m)) lid = Some lam -> l_args lam = [] ->
+  3 <= sp m -> sp m < scap m -> sget m (sp m - 2) = VArgc 0 ->
+  run_one m = ROk false (with_bp (pushed (with_ip m (a, 1)) (VBp (bp m))) (sp m + 1 - 4)).
+Proof.
+  intros Hc Hip H0 Hacc Hg Hl Hargs Hsp Hcap Hargc.
+  fetch_op' Hc Hip H0. change (0 + 1) with 1.
+  unfold enter_frame. unfold bindM at 1. unfold get_vm. unfold bindM at 1.
+  unfold hderef, lift. cbn [hp acc with_ip]. rewrite Hacc. cbn [heap_deref]. rewrite Hg.
+  unfold bindM at 1. rewrite ?Hacc. cbn [as_ptr]. unfold bindM at 1. unfold ret at 1. unfold ret at 1.
+  unfold bindM at 1. unfold hget, lift. cbn [hp with_ip]. rewrite Hg.
+  unfold bindM at 1. cbn [as_lambda]. unfold get_lambda. cbn [st with_ip]. rewrite Hl.
+  unfold bindM at 1. unfold stack_get_offset. cbn [sp with_ip].
+  destruct (Z.ltb_spec (Z.of_N (sp m) + -2) 0) as [Hz|_]; [lia|].
+  replace (Z.to_N (Z.of_N (sp m) + -2)) with (sp m - 2) by lia.
+  unfold stack_get. cbn [scap with_ip].
+  destruct (N.ltb_spec (sp m - 2) (scap m)) as [_|]; [|lia].
+  change (sget (with_ip m (a, 1)) (sp m - 2)) with (sget m (sp m - 2)). rewrite Hargc.
+  unfold bindM at 1. cbn [as_argc]. unfold ret at 1. rewrite Hargs. change (0 =? len []) with true. cbn [negb].
+  unfold bindM at 1. rewrite push_eq. unfold bindM at 1. unfold bindM at 1. unfold usub.
+  cbn [sp pushed with_scap with_stack with_ip].
+  destruct (N.ltb_spec (sp m + 1) 4) as [|_]; [lia|]. reflexivity.
+Qed.
+
+(* RET from a frame whose argument count is 0 *)
+Lemma step_ret m lp i bc e l0 i0 b : code_in m lp bc -> ip m = (lp, i) -> seg bc i [VOp ORet] ->
+  bp m + 4 < scap m ->
+  sget m (bp m + 1) = VArgc 0 -> sget m (bp m + 2) = VEp e -> sget m (bp m + 3) = VIp l0 i0 ->
+  sget m (bp m + 4) = VBp b ->
+  run_one m = ROk false (with_bp (with_ip (with_ep (with_sp (with_ip m (lp, i + 1)) (bp m - 0)) e) (l0, i0)) b).
+Proof.
+  intros Hc Hip Hs Hcap H1 H2 H3 H4. apply seg_head in Hs as [H0 _].
+  fetch_op' Hc Hip H0.
+  unfold bindM at 1. unfold get_vm. cbn [bp with_ip].
+  unfold bindM at 1. unfold stack_get at 1. cbn [scap with_ip].
+  destruct (N.ltb_spec (bp m + 1) (scap m)) as [_|]; [|lia].
+  change (sget (with_ip m (lp, i + 1)) (bp m + 1)) with (sget m (bp m + 1)). rewrite H1.
+  unfold bindM at 1. cbn [as_argc]. unfold ret at 1. unfold bindM at 1. unfold usub.
+  destruct (N.ltb_spec (bp m) 0) as [|_]; [lia|]. unfold ret at 1.
+  unfold bindM at 1. unfold set_sp at 1.
+  unfold bindM at 1. unfold stack_get at 1. cbn [scap with_sp with_stack with_ip].
+  destruct (N.ltb_spec (bp m + 2) (scap m)) as [_|]; [|lia].
+  change (sget (with_sp (with_ip m (lp, i + 1)) (bp m - 0)) (bp m + 2)) with (sget m (bp m + 2)). rewrite H2.
+  unfold bindM at 1. cbn [as_ep]. unfold ret at 1. unfold bindM at 1. unfold set_ep at 1.
+  unfold bindM at 1. unfold stack_get at 1. cbn [scap with_ep with_sp with_stack with_ip].
+  destruct (N.ltb_spec (bp m + 3) (scap m)) as [_|]; [|lia].
+  change (sget (with_ep (with_sp (with_ip m (lp, i + 1)) (bp m - 0)) e) (bp m + 3)) with (sget m (bp m + 3)). rewrite H3.
+  unfold bindM at 1. cbn [as_ip]. unfold ret at 1. unfold bindM at 1. unfold set_ip at 1.
+  unfold bindM at 1. unfold stack_get at 1. cbn [scap with_ep with_sp with_stack with_ip].
+  destruct (N.ltb_spec (bp m + 4) (scap m)) as [_|]; [|lia].
+  change (sget (with_ip (with_ep (with_sp (with_ip m (lp, i + 1)) (bp m - 0)) e) (l0, i0)) (bp m + 4)) with (sget m (bp m + 4)).
+  rewrite H4. reflexivity.
+Qed.
+
+Lemma step_halt m lp i bc : code_in m lp bc -> ip m = (lp, i) -> seg bc i [VOp OHalt] ->
+  run_one m = ROk true (with_ip m (lp, i + 1)).
+Proof. intros Hc Hip Hs. apply seg_head in Hs as [H0 _]. fetch_op' Hc Hip H0. reflexivity. Qed.
+
+End Top.
